@@ -19,6 +19,9 @@ use std::{
 };
 use tokio::{net::UdpSocket, time::Sleep};
 
+/// Size of the receive buffer, and therefore also the largest datagram worth sending.
+const MAX_DATAGRAM_LEN: usize = 1500;
+
 type Transactions = HashMap<(SocketAddr, TransactionId), Arc<Mutex<RespondedInner>>>;
 
 pub struct Socket {
@@ -44,6 +47,12 @@ impl Socket {
         // send the rest (no node will attempt to reassemble two or more datagrams into a
         // meaningful message).
         let encoded = bencode::encode(message).map_err(io::Error::other)?;
+        // Nobody running this implementation can receive more than `MAX_DATAGRAM_LEN` bytes (see
+        // `recv`), so a longer datagram is useless. This happens when we have to echo something
+        // huge a remote node gave us: its transaction id in a reply, its token in announce_peer.
+        if encoded.len() > MAX_DATAGRAM_LEN {
+            return Err(io::Error::other("message does not fit into a datagram"));
+        }
         self.inner_socket.send_to(&encoded, &addr).await?;
         Ok(())
     }
@@ -70,7 +79,7 @@ impl Socket {
     /// the code where requests are being sent. To avoid a complete and sudden rewrite, both
     /// approaches are now supported but would be good if we gradually switch to the latter.
     pub(crate) async fn recv(&self) -> io::Result<(Message, SocketAddr)> {
-        let mut buffer = vec![0u8; 1500];
+        let mut buffer = vec![0u8; MAX_DATAGRAM_LEN];
         loop {
             let r = self.inner_socket.recv_from(&mut buffer).await;
             let (size, addr) = r?;
